@@ -1,1 +1,52 @@
-From Verif Require Import Base.
+(* C06 — hold time negotiation, hold-timer expiry and keepalive cadence (timer logic). *)
+From Verif Require Import Base Consts Packet PacketSpec Conn ConnProofs.
+
+(* hold time in force = min(local, received); on acceptance the keep-alive timer is armed with a
+   third of it and the hold timer with it, or, when it is zero, the hold timer is stopped *)
+Theorem c06_negotiated : forall cf o, negotiated cf o = N.min (cf_hold cf) (o_hold o) * second.
+Proof. exact negotiated_min. Qed.
+Print Assumptions c06_negotiated.
+
+Theorem c06_open_accept_timers : forall cf pl h k o,
+  conn_step cf pl (mkC POpenSent h k) (IRd (RMsg (MOpen o))) =
+  match open_validate (cf_lid cf) (cf_las cf) (cf_ras cf) o with
+  | Some n => (mkC PDone h k, [AWrite (notif_encode n); ACloseConn; AStopHold; AReturn 1 (ENotifOut n)])
+  | None =>
+      match pl_on_open pl with
+      | Some n => (mkC PDone h k, [AOnOpen (o_id o) (get_capabilities o); AWrite (notif_encode n);
+                                   ACloseConn; AStopHold; AReturn 1 (ENotifOut n)])
+      | None =>
+          (mkC PWaitOC (negotiated cf o) k,
+           [AOnOpen (o_id o) (get_capabilities o); AWrite keepalive_encode]
+           ++ (if negotiated cf o =? 0 then [AStopHold]
+               else [AArmKA (negotiated cf o / 3); AArmHold (negotiated cf o)])
+           ++ [AReturn 5 ENone])
+      end
+  end.
+Proof. exact open_in_opensent. Qed.
+Print Assumptions c06_open_accept_timers.
+
+(* expiry: NOTIFICATION (Hold Timer Expired), close, Idle — in OpenConfirm and Established *)
+Theorem c06_hold_expiry : forall cf pl st,
+  (c_phase st = POpenConfirm \/ c_phase st = PEstablished) -> c_holdns st <> 0 ->
+  conn_step cf pl st IHold =
+  (mkC PDone (c_holdns st) (c_nupd st),
+   [AWrite (notif_encode (mkNotif 4 0 []))] ++ teardown (c_phase st) ++ [AReturn 1 (ENotifOut (mkNotif 4 0 []))]).
+Proof. exact hold_expiry. Qed.
+Print Assumptions c06_hold_expiry.
+
+(* keep-alive timer: send KEEPALIVE and re-arm with a third of the hold time *)
+Theorem c06_keepalive_timer : forall cf pl st,
+  (c_phase st = POpenConfirm \/ c_phase st = PEstablished) -> c_holdns st <> 0 ->
+  conn_step cf pl st IKA = (st, [AWrite keepalive_encode; AArmKA (c_holdns st / 3)]).
+Proof. exact keepalive_timer. Qed.
+Print Assumptions c06_keepalive_timer.
+
+(* zero: no timer is ever armed, timer events do nothing *)
+Theorem c06_zero_hold : forall cf pl st i,
+  c_holdns st = 0 -> c_phase st <> POpenSent ->
+  existsb arms (snd (conn_step cf pl st i)) = false
+  /\ c_holdns (fst (conn_step cf pl st i)) = 0
+  /\ ((i = IHold \/ i = IKA) -> conn_step cf pl st i = (st, [])).
+Proof. exact zero_hold_no_timers. Qed.
+Print Assumptions c06_zero_hold.
